@@ -598,3 +598,112 @@ func checkLazyMisc(r *core.Result, prog *core.Program, lp *packages.Package) {
 		}
 	}
 }
+
+// checkDefValidate (V-def, C13): every definition whose field numbers are valid must be accepted, so (Def).validate
+// may reject only because of a field number: each error it returns is either the propagated error of the recursive
+// call on a nested definition or sits under a condition over the map key (and values derived from it) alone.
+func checkDefValidate(r *core.Result, prog *core.Program, lp *packages.Package) {
+	info := lp.TypesInfo
+	f := core.FindFunc(lp, "(Def).validate")
+	if f == nil {
+		f = core.FindFunc(lp, "Def.validate")
+	}
+	if f == nil || f.Decl == nil {
+		r.Fail("anchor", "(Def).validate", "", "function not found")
+		return
+	}
+	// the key variable of the range over the definition, and locals computed from it
+	keyish := map[types.Object]bool{}
+	ast.Inspect(f.Decl.Body, func(n ast.Node) bool {
+		if rs, ok := n.(*ast.RangeStmt); ok {
+			if id, ok := rs.Key.(*ast.Ident); ok {
+				if o := info.Defs[id]; o != nil {
+					keyish[o] = true
+				}
+			}
+		}
+		return true
+	})
+	changed := true
+	for changed {
+		changed = false
+		ast.Inspect(f.Decl.Body, func(n ast.Node) bool {
+			as, ok := n.(*ast.AssignStmt)
+			if !ok || len(as.Lhs) != 1 || len(as.Rhs) != 1 {
+				return true
+			}
+			lid, ok := as.Lhs[0].(*ast.Ident)
+			if !ok {
+				return true
+			}
+			lo := info.Defs[lid]
+			if lo == nil {
+				lo = info.Uses[lid]
+			}
+			if lo == nil || keyish[lo] {
+				return true
+			}
+			only := true
+			ast.Inspect(as.Rhs[0], func(m ast.Node) bool {
+				if id, ok := m.(*ast.Ident); ok {
+					if v, isVar := info.Uses[id].(*types.Var); isVar && !keyish[v] {
+						only = false
+					}
+				}
+				return true
+			})
+			if only {
+				keyish[lo] = true
+				changed = true
+			}
+			return true
+		})
+	}
+	parents := parentMap(f.Decl.Body)
+	n := 0
+	ast.Inspect(f.Decl.Body, func(nn ast.Node) bool {
+		ret, ok := nn.(*ast.ReturnStmt)
+		if !ok || len(ret.Results) != 1 || isNilIdentExpr(ret.Results[0]) {
+			return true
+		}
+		n++
+		// innermost enclosing if
+		var cond ast.Expr
+		var init ast.Stmt
+		for cur := ast.Node(ret); cur != nil; cur = parents[cur] {
+			if is, ok := parents[cur].(*ast.IfStmt); ok && is.Body == cur {
+				cond, init = is.Cond, is.Init
+				break
+			}
+		}
+		okCond := false
+		why := "the error is returned unconditionally"
+		if cond != nil {
+			why = "condition: " + types.ExprString(cond)
+			// propagation of the nested call
+			if as, ok := init.(*ast.AssignStmt); ok && len(as.Rhs) == 1 {
+				if c, ok := as.Rhs[0].(*ast.CallExpr); ok {
+					if fn := staticCallee(info, c); fn != nil && fn.Name() == "validate" {
+						okCond = true
+					}
+				}
+			}
+			if !okCond {
+				onlyKey := true
+				ast.Inspect(cond, func(m ast.Node) bool {
+					if id, ok := m.(*ast.Ident); ok {
+						if v, isVar := info.Uses[id].(*types.Var); isVar && !keyish[v] {
+							onlyKey = false
+						}
+					}
+					return true
+				})
+				okCond = onlyKey
+			}
+		}
+		r.Ob("V-def", fmt.Sprintf("(Def).validate :: %s depends on the field number only", cutTo(nodeString(ret), 60)), prog.Pos(ret.Pos()), okCond,
+			"a definition is rejected for a reason other than an invalid field number ("+why+"): definitions with valid field numbers (for example one nested Def shared by two tags) must be accepted")
+		return true
+	})
+	r.Floor("rejections in (Def).validate", n, 2)
+}
